@@ -26,10 +26,17 @@ CLAIMED = {
          "size = width - left - right padding (vtt_settings_arith, vtt_settings_no_padding), align is omitted exactly for centred text and an absent alignment "
          "means start (vtt_align_names), cue settings read from a WebVTT file are written back verbatim whatever the writer options (vtt_settings_verbatim). "
          "The executable model of _convert_positioning (with relativization and fit-to-screen from C13) is compared with the writer's timing lines; an "
-         "independent denotation checks the parsed settings; layout groups give separate cues with equal times. DFXP: write + read of layouts at language / "
-         "caption / node level under relativize / fit options, effective layout per visible character with DFXP defaults (start / after)."),
-   ref="§3 C12", technique="Lean 4 proof (rational arithmetic, case analysis) + correspondence on cue settings + DFXP round-trip oracle",
-   note=NOTE_COMMON + "The DFXP round trip (RegionCreator + LayoutInfoScraper through bs4) is established by execution only. Known finding C12-dfxp-bare-text-node-layout is listed in known_findings.json."),
+         "independent denotation checks the parsed settings; layout groups give separate cues with equal times. DFXP: for EVERY layout with non-negative "
+         "sizes (any units, any decimals, any parts absent) the reader model builds from the region attributes the writer model prints (tts:origin / extent / "
+         "padding / textAlign / displayAlign; alignment name tables regenerated from the source statement by statement) the same layout, sizes rounded half-even "
+         "to hundredths, absent alignment parts start / after (region_attrs_roundtrip), exactly for sizes with at most two decimals "
+         "(region_attrs_roundtrip_exact), all 24 alignment combinations (alignment_attrs_roundtrip, default_alignment_pinned); a layout that occurs in the "
+         "document is assigned the region made for exactly it, never the fallback, and no two layouts share a region (layout_gets_own_region, over the C07 "
+         "region-map model). Both directions of the attribute model are compared with _convert_layout_to_attributes and with DFXPReader on generated and "
+         "hand-made (malformed) attribute values; plus write + read of whole caption sets with layouts at language / caption / node level under relativize / "
+         "fit options, effective layout per visible character."),
+   ref="§3 C12", technique="Lean 4 proof (rational arithmetic, print/parse of sizes, case analysis) + correspondence on cue settings and region attributes + DFXP round-trip oracle",
+   note=NOTE_COMMON + "The path from a caption element to its region (xml:id lookup, style chains, inheritance through bs4) is established by execution only; the model covers a region that carries the attributes itself. Known finding C12-dfxp-bare-text-node-layout is listed in known_findings.json."),
 
  "C11": dict(
    text=("Lean theorems: for EVERY element tree (any nesting of styled elements, text, breaks) the node list the DFXP/SAMI readers build has balanced, properly "
@@ -101,7 +108,12 @@ CLAIMED = {
          "(writer_chars_decode_back, writer_codes_injective); for EVERY line of basic characters the writer model emits, after the row's preambles, exactly "
          "the words of its characters two by two, a last single one completed by the filler byte (written_line_is_words), and the READER model - from any state, "
          "in any mode - takes these words for character words only and the text it holds grows by exactly the line's characters, in order "
-         "(written_row_rereads: a word beginning with a basic code is in none of the command, preamble, special, extended, tab-offset tables; conservation from C16). Executable model of _text_to_code, the pre-roll pass and _format_timestamp compared byte-for-byte with the writer's output; the output is "
+         "(written_row_rereads: a word beginning with a basic code is in none of the command, preamble, special, extended, tab-offset tables; conservation from C16); "
+         "a WHOLE caption as written (94ae 94ae 9420 9420, per row the preamble twice and the character words, 942c 942c 942f 942f) read between two captions "
+         "executes every doubled control code once and adds exactly the caption's characters row by row (written_caption_rereads); the text the writer model "
+         "produces for ANY caption set of basic characters is header + per caption `<time code>\\t<these words>` (write_is_file: the pre-roll pass never touches a "
+         "code word) and the reader model run on it - splitlines, lower-casing, time-code / word splitting, doubling memory, every control code, final flush - "
+         "holds at the end exactly the captions' characters in order (written_file_rereads: end to end on the models of writer and reader). Executable model of _text_to_code, the pre-roll pass and _format_timestamp compared byte-for-byte with the writer's output; the output is "
          "checked structurally (header, hex words, parity, rows, 32 columns, breaks at spaces only, non-decreasing timecodes, visible within 3 frames) and "
          "re-read with the real SCCReader (same words, one caption per caption)."),
    ref="§3 C17", technique="Lean 4 proof (decide +kernel over generated tables, omega) + byte-level correspondence + structural oracle + re-read",
@@ -113,7 +125,9 @@ CLAIMED = {
          "list, alternating on/off switches that start with on and are closed at the end (formatItalics_balanced, by invariants through the five passes), "
          "(row,col) maps linearly and strictly monotonically into the 10-90% x 5-95% safe area (layout_linear_safe, layout_strictly_monotone), and whole-table "
          "facts by kernel evaluation: every PAC addresses row 1-15 / column 0,4..28, all 15x8 addresses exist, tab offsets are 1..3, the code tables are "
-         "pairwise disjoint. The model agrees with the implementation on exhaustive PAC x tab-offset x doubling and per-code programs and on random rich "
+         "pairwise disjoint; in EVERY reader state the second copy of a doubled control code / preamble / special character changes nothing but the doubling "
+         "memory and the frame count (second_copy_dropped) and a control code sent twice after a character word acts exactly once "
+         "(doubled_control_counts_once). The model agrees with the implementation on exhaustive PAC x tab-offset x doubling and per-code programs and on random rich "
          "pop-on programs; the implementation is compared with a reference CEA-608 screen reading built from the standard's formulas."),
    ref="§3 C05", technique="Lean 4 proof (pass invariants, decide +kernel over generated tables, linarith) + state-machine correspondence + reference decoder oracle",
    note=NOTE_COMMON + "The refinement theorem decode_encode (model = reference reading for every program) is NOT proved: that link is the differential comparison. "
